@@ -2,6 +2,7 @@ package main
 
 import (
 	"fmt"
+	"go/constant"
 	"go/token"
 	"go/types"
 	"strings"
@@ -916,6 +917,10 @@ func (ex *Exec) intrinsic(f *frame, st *State, callee *ssa.Function, cc *ssa.Cal
 		set(r)
 		return true
 	case "fmt.Sprintf", "fmt.Sprint", "fmt.Sprintln":
+		if t, ok := ex.sprintfExact(f, callee, cc); ok {
+			set(t)
+			return true
+		}
 		set(sc.freshConst(hint+"#str", SStr))
 		return true
 	case "(*sync.WaitGroup).Add", "(*sync.WaitGroup).Done", "(*sync.WaitGroup).Wait":
@@ -923,6 +928,100 @@ func (ex *Exec) intrinsic(f *frame, st *State, callee *ssa.Function, cc *ssa.Cal
 		return true
 	}
 	return false
+}
+
+// sprintfExact: fmt.Sprintf with a constant format made of literal text, %s / %v verbs and %%, all of whose arguments are
+// strings, is the concatenation it denotes (so that "a" + x + "b" may be rewritten as Sprintf("a%sb", x)).
+func (ex *Exec) sprintfExact(f *frame, callee *ssa.Function, cc *ssa.CallCommon) (Term, bool) {
+	if callee.String() != "fmt.Sprintf" || len(cc.Args) != 2 {
+		return Term{}, false
+	}
+	fc, ok := cc.Args[0].(*ssa.Const)
+	if !ok || fc.Value == nil || fc.Value.Kind() != constant.String {
+		return Term{}, false
+	}
+	format := constant.StringVal(fc.Value)
+	// the variadic arguments: a slice of a local array whose cells are assigned boxed strings
+	sl, ok := cc.Args[1].(*ssa.Slice)
+	if !ok || sl.Low != nil || sl.High != nil {
+		return Term{}, false
+	}
+	al, ok := sl.X.(*ssa.Alloc)
+	if !ok {
+		return Term{}, false
+	}
+	args := map[int64]ssa.Value{}
+	for _, ref := range *al.Referrers() {
+		ia, ok := ref.(*ssa.IndexAddr)
+		if !ok {
+			continue
+		}
+		ic, ok := ia.Index.(*ssa.Const)
+		if !ok {
+			return Term{}, false
+		}
+		k, _ := constInt(ic)
+		for _, r2 := range *ia.Referrers() {
+			if st, ok := r2.(*ssa.Store); ok && st.Addr == ia {
+				mi, ok := st.Val.(*ssa.MakeInterface)
+				if !ok {
+					return Term{}, false
+				}
+				if b, ok := mi.X.Type().Underlying().(*types.Basic); !ok || b.Kind() != types.String {
+					return Term{}, false
+				}
+				if _, dup := args[k]; dup {
+					return Term{}, false
+				}
+				args[k] = mi.X
+			}
+		}
+	}
+	var parts []Term
+	lit := ""
+	n := int64(0)
+	flush := func() {
+		if lit != "" {
+			parts = append(parts, strLit(lit))
+			lit = ""
+		}
+	}
+	for i := 0; i < len(format); i++ {
+		if format[i] != '%' {
+			lit += string(format[i])
+			continue
+		}
+		if i+1 >= len(format) {
+			return Term{}, false
+		}
+		i++
+		switch format[i] {
+		case '%':
+			lit += "%"
+		case 's', 'v':
+			a, ok := args[n]
+			if !ok {
+				return Term{}, false
+			}
+			n++
+			flush()
+			parts = append(parts, f.val(a))
+		default:
+			return Term{}, false
+		}
+	}
+	flush()
+	if n != int64(len(args)) {
+		return Term{}, false
+	}
+	if len(parts) == 0 {
+		return strLit(""), true
+	}
+	cur := parts[0]
+	for _, p := range parts[1:] {
+		cur = app(SStr, "str.++", cur, p)
+	}
+	return cur, true
 }
 
 // errConvention: for dependency (non-rulio) functions returning (..., error): when the error is nil the
